@@ -133,19 +133,23 @@ def appendEntries (n : Node) (now : Nat) (q : AEReq) : Option (Node × AEResp ×
     let r := aeAccept r3.1 now q
     some (r.1, { term := rT, success := true }, r3.2 ++ r.2)
 
+/-- The optional step to the request's term at the top of `RequestVote`. -/
+def rvEnter (n : Node) (now : Nat) (q : RVReq) : Node × List Effect :=
+  if !q.prevote ∧ q.term > n.term then n.becomeFollower now q.candidate q.term else (n, [])
+
 /-- `RequestVote(request, response)`. -/
 def requestVote (n : Node) (now : Nat) (q : RVReq) : Option (Node × RVResp × List Effect) :=
   if n.role = .shutdown then none else
   if n.leaseValid now || n.contactFresh now then some (n, { term := n.term, granted := false }, []) else
   if q.term < n.term then some (n, { term := n.term, granted := false }, []) else
-  let (n1, e1) := if !q.prevote ∧ q.term > n.term then n.becomeFollower now q.candidate q.term else (n, [])
-  if !q.prevote ∧ n1.votedFor ≠ 0 ∧ n1.votedFor ≠ q.candidate then
-    some (n1, { term := n1.term, granted := false }, e1) else
-  if q.lastTerm < n1.log.lastTerm ∨ (q.lastTerm = n1.log.lastTerm ∧ n1.log.lastIndex > q.lastIndex) then
-    some (n1, { term := n1.term, granted := false }, e1) else
-  if q.prevote then some (n1, { term := n1.term, granted := true }, e1)
+  let r1 := rvEnter n now q
+  if !q.prevote ∧ r1.1.votedFor ≠ 0 ∧ r1.1.votedFor ≠ q.candidate then
+    some (r1.1, { term := r1.1.term, granted := false }, r1.2) else
+  if q.lastTerm < r1.1.log.lastTerm ∨ (q.lastTerm = r1.1.log.lastTerm ∧ r1.1.log.lastIndex > q.lastIndex) then
+    some (r1.1, { term := r1.1.term, granted := false }, r1.2) else
+  if q.prevote then some (r1.1, { term := r1.1.term, granted := true }, r1.2)
   else
-    some ({ n1 with lastContact := now, votedFor := q.candidate },
-          { term := n1.term, granted := true }, e1 ++ [.setState n1.term q.candidate])
+    some ({ r1.1 with lastContact := now, votedFor := q.candidate },
+          { term := r1.1.term, granted := true }, r1.2 ++ [.setState r1.1.term q.candidate])
 
 end Raft
